@@ -292,6 +292,22 @@ def g_near1(rng, p, side=None, signed=False):
     return -v if signed and rng.random() < 0.5 else v
 
 
+def g_near1_long(rng, p, side=-1, signed=True):
+    """1 -/+ 2^-k -/+ 2^-j with j near the precision: next to 1 with a mantissa that fills the precision, so that x*x does not fit
+    any fixed number of guard bits (cancellation in 1 - x^2)"""
+    k = rng.choice([rng.randint(2, 12), rng.randint(10, max(11, p - 8)), max(2, p // 2)])
+    j = rng.choice([p, p - 1, p - rng.randint(2, 6), k + rng.randint(1, 12)])
+    j = max(k + 1, min(j, p))
+    v = 1 + side * (Fraction(1, 2 ** k) + Fraction(1, 2 ** j))
+    return -v if signed and rng.random() < 0.5 else v
+
+
+def g_bigint(rng, p):
+    """large integers with few trailing zero bits (the integer-argument branch of exp at high precision)"""
+    j = rng.randint(20, 40)          # e^(2^40) has a 3-million-bit exponent: larger arguments make the exact-side arithmetic too slow
+    return Fraction(rng.choice([1, -1]) * ((1 << j) + rng.choice([1, 3, rng.getrandbits(j - 1) | 1])))
+
+
 def g_pm_eps(rng, p):
     k = rng.choice([1, 5, 30, p // 2, p, p + 3, 2 * p if _deep(p) else p + 7, 1000 if _deep(p) else p // 3])
     return rng.choice([1, -1]) * g_val(rng, p, -k, signed=False)
@@ -362,6 +378,7 @@ def _setup():
         reg(fn, "gen", gen); reg(fn, "tiny", tiny, .6); reg(fn, "large", _c1(g_modlarge), .8)
         reg(fn, "cgen", cg); reg(fn, "c_kpi2_im", lambda rng, p: [(g_gen(rng, p, -6, 2), g_kpi2(rng, p))], .6)
     reg("exp", "gen", gen); reg("exp", "tiny", tiny, .6); reg("exp", "large", _c1(g_modlarge))
+    reg("exp", "bigint", _c1(g_bigint), 0.35)
     reg("exp", "cgen", cg); reg("exp", "c_kpi2_im", lambda rng, p: [(g_gen(rng, p), g_kpi2(rng, p))])
     reg("exp", "c_large_re", lambda rng, p: [(g_modlarge(rng, p), g_gen(rng, p))], .5)
     reg("log", "gen", _c1(pos(g_gen))); reg("log", "near1", _c1(g_near1), 2.0); reg("log", "tiny", _c1(pos(g_tiny)), .5)
@@ -396,6 +413,7 @@ def _setup():
     for fn in ("asin", "acos"):
         reg(fn, "gen", _c1(lambda rng, p: g_gen(rng, p, -8, 0))); reg(fn, "tiny", tiny, .5)
         reg(fn, "near1_in", _c1(lambda rng, p: g_near1(rng, p, side=-1, signed=True)), 1.2)
+        reg(fn, "near1_in_long", _c1(lambda rng, p: g_near1_long(rng, p, side=-1, signed=True)), 1.6)
         reg(fn, "near1_out", _c1(lambda rng, p: g_near1(rng, p, side=1, signed=True)), .8)
         reg(fn, "out", _out(), .8); reg(fn, "huge_out", huge, .3)
         reg(fn, "cgen", cg); reg(fn, "c_cut", _cut_real(lambda rng, p: _out()(rng, p)[0]), .8)
@@ -548,11 +566,24 @@ def generate(rng, tier_, n_calls, fns=None, only=None):
     stats = {"raised": [], "skipped_estimate": 0, "direct": []}
     direct = []
     fns = fns or FUNCS
+    # stratified: every (function, regime) cell once, the cells that need a particular shape of argument to go wrong three times,
+    # the rest of the budget at random by weight
+    HARD = {"near1_in_long", "near1_in", "bigint", "kpi2", "c_int", "near1_base", "c_near_i", "c_cut"}
+    plan = []
+    for fn_ in fns:
+        for tag_, w_, g_ in R[fn_]:
+            plan += [(fn_, tag_, g_)] * (3 if tag_ in HARD else 1)
+    rng.shuffle(plan)
+    plan = plan[:n_calls]
     for i in range(n_calls):
-        fn = rng.choice(fns)
-        regs = R[fn]
-        tag, _, g = rng.choices(regs, weights=[w for _, w, _ in regs])[0]
+        if i < len(plan):
+            fn, tag, g = plan[i]
+        else:
+            fn = rng.choice(fns)
+            regs = R[fn]
+            tag, _, g = rng.choices(regs, weights=[w for _, w, _ in regs])[0]
         prec = pick_prec(rng, tier_)
+        if tag == "bigint": prec = rng.choice([rng.randint(610, 720), 1000])     # the integer-argument branch of exp starts above 600 bits
         try:
             args = g(rng, prec)
         except Exception as ex:      # generator trouble is not the implementation's fault
@@ -568,6 +599,23 @@ def generate(rng, tier_, n_calls, fns=None, only=None):
             stats["raised"].append({"fn": fn, "regime": tag, "prec": prec, "exc": repr(ex)[:100]})
             calls[cid] = call
             direct.append(("raised %s for a finite argument where the function is defined" % (repr(ex)[:80],), call)); continue
+        if tag == "bigint":
+            # exp of a large integer: an Interval certificate at these sizes does not finish inside the budget, so this regime is
+            # decided on the search side only: two evaluations at +200 bits through branches that do not share the integer-argument
+            # code (exp(n - 1/2) * exp(1/2) and exp(n/2 + 1/4)^2 / exp(1/2)) must agree with each other to p+100 bits and with the result
+            # to 2^(4-p); a disagreement with the result is reported with the argument as the failing input
+            c2 = mp.clone(); c2.prec = prec + 200
+            xx = c2.mpf(args[0].numerator)
+            r1 = c2.exp(xx - c2.mpf(0.5)) * c2.exp(c2.mpf(0.5))
+            r2 = c2.exp(xx / 2 + c2.mpf(0.25)) ** 2 / c2.exp(c2.mpf(0.5))
+            yy = c2.mpf(y)
+            calls[cid] = call; call["result"] = [str(list(y._mpf_))[:200]]
+            if abs(r1 - r2) <= abs(r1) * c2.ldexp(1, -(prec + 100)):
+                stats.setdefault("bigint_oracle_checked", 0); stats["bigint_oracle_checked"] += 1
+                if abs(yy - r1) > abs(r1) * c2.ldexp(1, 4 - prec):
+                    direct.append(("exp(%d) at prec %d differs from two independent (prec+200)-bit evaluations by %.1f * 2^-p (relative)"
+                                   % (args[0].numerator, prec, float(abs(yy - r1) / abs(r1) * c2.ldexp(1, prec))), call))
+            continue
         yv = value_of(y)
         call["result"] = [str(v) if not isinstance(v, Fraction) else list(dyadic(v)) for v in yv[1:]]
         try:
@@ -584,7 +632,7 @@ def generate(rng, tier_, n_calls, fns=None, only=None):
 def run(rep, tier_, rng):
     load_known_b(rep)
     TIER[0] = tier_
-    n_calls = 230 if tier_ == "quick" else 2200
+    n_calls = 330 if tier_ == "quick" else 2200
     t0 = time.time()
     focus = [f for f in os.environ.get("VERIF_C12_FUNCS", "").split(",") if f in R] or None   # debugging aid: sample only these
     insts, calls, direct, stats = generate(rng, tier_, n_calls, fns=focus)
